@@ -534,6 +534,12 @@ func (g *Gen) genFunction(fn *ssa.Function, con *Contract, safety bool) *FnCtx {
 			}
 		}
 	}
+	if con != nil && con.Invokes != "" {
+		if err := fc.checkInvokesFirst(con.Invokes); err != nil {
+			fc.err = err
+			return fc
+		}
+	}
 	fc.findLoops()
 	// entry state
 	st := &State{fc: fc, reach: "true", locals: map[*ssa.Alloc]string{}, heap: map[string]string{}, ghost: map[string]string{}, nonnil: map[string]bool{}, bounds: map[string]string{}, baseBound: "alloc0"}
@@ -618,6 +624,35 @@ func (g *Gen) genFunction(fn *ssa.Function, con *Contract, safety bool) *FnCtx {
 	}
 	fc.finish()
 	return fc
+}
+
+// checkInvokesFirst: the `invokes p` directive promises that p is called in the entry block before any other effect.
+func (fc *FnCtx) checkInvokesFirst(p string) error {
+	for _, in := range fc.fn.Blocks[0].Instrs {
+		switch x := in.(type) {
+		case ssa.CallInstruction:
+			c := x.Common()
+			if !c.IsInvoke() {
+				if pp := paramOfFnValue(c.Value); pp != nil && pp.Name() == p {
+					return nil
+				}
+				if f := c.StaticCallee(); f != nil && fc.g.contracts[fc.g.fnName(f)] != nil && fc.g.contracts[fc.g.fnName(f)].Invokes != "" {
+					// delegation to another higher-order function with the same promise (e.g. RunWithGraceSeconds -> runWithGraceSeconds)
+					return nil
+				}
+			}
+			fr := fc.g.closeDeps(fc.g.callFrame(c, false))
+			if fr.top || len(fr.arrs) > 0 || len(fr.facts) > 0 {
+				return fmt.Errorf("%s: `invokes %s`: another effectful call precedes the invocation", fc.name, p)
+			}
+		case *ssa.Store:
+			if a, ok := x.Addr.(*ssa.Alloc); ok && !a.Heap {
+				continue
+			}
+			return fmt.Errorf("%s: `invokes %s`: a heap store precedes the invocation", fc.name, p)
+		}
+	}
+	return fmt.Errorf("%s: `invokes %s`: no invocation of the parameter in the entry block", fc.name, p)
 }
 
 func (fc *FnCtx) topoOrder() []*ssa.BasicBlock {
@@ -955,6 +990,24 @@ func (fc *FnCtx) finish() {
 	}
 	env := fc.selfEnv(fc.entry, exit, results)
 	env.frameArrs = sortedKeys(exit.heap)
+	if fc.con.Invokes != "" {
+		cnt := exit.ghostGet("#"+fc.con.Invokes, sInt, "0")
+		fc.oblige(exit, "post", "invokes_"+fc.con.Invokes+"_exactly_once", eq(cnt, "1"), fc.fn.Pos(), nil)
+	}
+	// ghost fact definitions are assigned at return
+	for _, se := range fc.con.Sets {
+		t, err := fc.evalBool(env, se.Expr)
+		if err != nil {
+			fc.err = fmt.Errorf("%s: sets %q: %v", fc.name, se.Text, err)
+			return
+		}
+		k := "fact:" + se.Var
+		fc.ghostSort[k] = sBool
+		if _, ok := fc.ghostInit[k]; !ok {
+			fc.ghostInit[k] = fc.factInit(se.Var)
+		}
+		exit.ghost[k] = t
+	}
 	for _, c := range fc.con.Ensures {
 		t, err := fc.evalBool(env, c.Expr)
 		if err != nil {
